@@ -629,6 +629,14 @@ pub fn cost_families(out: &mut crate::Out, thorough: bool, seed: u64) {
             }
         }
     }
+    // lengths beyond what a usize can hold: 2^59 .. 2^66 bytes through structural sharing (never materialised)
+    for n in [58u16, 59, 60, 62, 64, 66, 100] {
+        for vecs in [false, true] {
+            let mut v = fam_doubling(n, Some(if vecs { VLength } else { BLength }), vecs);
+            v.pop();
+            put(out, "cost-length-overflow", v, true);
+        }
+    }
     // honest programs for calibration of the cost model
     for _ in 0..200 {
         let ops = gen_typed(&mut r);
